@@ -266,6 +266,50 @@ fn run_case(t: &mut Tally, case: &Case, class: &str) {
     }
 }
 
+/// Presigned (query-carrier) requests whose X-Amz-* values carry percent-encoded non-ASCII text: decimal digits of
+/// other scripts in every timestamp field, non-ASCII credential / signed-header / token text, invalid UTF-8.
+fn presigned_unicode(t: &mut Tally, seed: u64, n: u64) {
+    let digits = ["\u{ff12}", "\u{0662}", "\u{0968}", "\u{1d7d0}", "\u{0e52}", "\u{b2}", "\u{2082}", "\u{2461}"];
+    for i in 0..n {
+        let mut r = Rng::keyed(seed, "C08", "presigned-unicode", 0, i);
+        let mut cfg = gen_cfg(&mut r);
+        if r.coin() {
+            cfg.s3 = false;
+            cfg.fold = r.coin();
+        }
+        let o = GenOpts {
+            carrier: Some(crate::rm::decide::Carrier::Query),
+            ..Default::default()
+        };
+        let l = gen_logical(&mut r, &cfg, &o);
+        let mut ts: Vec<char> = l.t.compact().chars().collect();
+        let p = *r.pick(&[0usize, 1, 2, 3, 4, 5, 6, 7, 9, 10, 11, 12, 13, 14]);
+        let d = r.pick_str(&digits);
+        ts.splice(p..p + 1, d.chars());
+        let mut ov = Overrides {
+            ts_text: Some(ts.into_iter().collect()),
+            ..Default::default()
+        };
+        match r.below(4) {
+            0 => ov.credential = Some(format!("AK\u{ff21}/{}/{}/{}/aws4_request", l.t.yyyymmdd(), cfg.region, cfg.service)),
+            1 => ov.signed = Some(vec!["host".into(), "x-\u{e9}".into()]),
+            2 => ov.signature = Some("\u{ff10}".repeat(64)),
+            _ => {}
+        }
+        let mut sr = Rng::keyed(seed, "C08", "presigned-unicode-spell", 0, i);
+        let mut sp = Speller {
+            r: &mut sr,
+            level: 1,
+        };
+        let (mut case, _) = make_case(&l, &cfg, &mut sp, &ov, 0);
+        if r.chance(1, 5) {
+            // raw invalid UTF-8 escapes inside an authentication parameter
+            case.wire.uri.extend_from_slice(b"&X-Amz-Security-Token=%ff%fe%c3%28");
+        }
+        run_case(t, &case, "presigned-unicode");
+    }
+}
+
 /// Every charset label × body shapes, folding on, in an otherwise validly signed request.
 fn charset_matrix(t: &mut Tally, seed: u64) {
     let bodies: [&[u8]; 7] = [b"", b"a=1&b=%20", b"a=\xff\xfe", b"\xe3\x81", b"\xff\xff\xff\xff\xff\xff\xff\xff", b"\x1b$B\x1b(B~{~}\x0e\x0f\x1b", b"\xd8\x00\xdc"];
@@ -456,6 +500,9 @@ pub fn sub_san(seed: u64, shard: u64, n: u64, light: bool) -> i32 {
         run_case(&mut t, &case, "mixed-corpus");
     }
     if !light {
+        if shard == 2 {
+            presigned_unicode(&mut t, seed, n / 10 + 50);
+        }
         if shard == 0 {
             charset_matrix(&mut t, seed);
             stable_api(&mut t);
@@ -730,6 +777,9 @@ pub fn run(tier: Tier) -> i32 {
             charset_matrix(&mut t, seed);
             stable_api(&mut t);
         }
+        if s == 2 {
+            presigned_unicode(&mut t, seed, tier.n(2000, 100_000));
+        }
         if s == 1 {
             direct_api(&mut t, seed, tier.n(3000, 1_000_000));
         }
@@ -813,6 +863,7 @@ pub fn run(tier: Tier) -> i32 {
     }
     ctx.gate("hostile cases executed (admitted by the http crate)", tally.get("executed/hostile"), tier.n(50_000, 6_000_000));
     ctx.gate("validly signed requests with 1–3 byte-level edits executed", tally.get("executed/mutated-valid"), tier.n(50_000, 6_000_000));
+    ctx.gate("presigned requests with non-ASCII digits / text in the authentication parameters", tally.get("executed/presigned-unicode"), tier.n(1500, 50_000));
     ctx.gate("charset labels executed", tally.get("charset_labels_executed"), LABELS.len() as u64 + 9);
     ctx.gate("heavy cases (≥ 60 KiB bodies, limit-length URIs) completed in the child process, folding on", tally.get("heavy_fold_on"), 25);
     ctx.gate("heavy cases completed, folding off", tally.get("heavy_fold_off"), 25);
